@@ -18,6 +18,7 @@ import (
 	dbm "github.com/tendermint/tm-db"
 
 	"github.com/tendermint/tendermint/evidence"
+	sm "github.com/tendermint/tendermint/state"
 	tmproto "github.com/tendermint/tendermint/proto/tendermint/types"
 	"github.com/tendermint/tendermint/types"
 	"pgregory.net/rapid"
@@ -35,6 +36,9 @@ const (
 	kfForward    = "C11-forward-lunatic"       // forward lunatic evidence is never verifiable (no canonical commit of the tip)
 	kfExpired    = "C11-expired-pending"       // expired evidence that is still pending is accepted inside a block
 	kfPanic      = "C11-nil-validator-panic"   // a commit slot naming a non-member makes GetByzantineValidators panic
+	kfIndex      = "C11-validator-index-malleable" // duplicate-vote evidence verifies with any Vote.ValidatorIndex: new hash, same offence
+	kfCrash      = "C11-update-lost-in-crash"      // crash between SaveBlock and Pool.Update: replay uses EmptyEvidencePool
+	kfRace       = "C11-add-evidence-not-atomic"   // AddEvidence interleaved with AddEvidence / CheckEvidence / Update
 )
 
 // guarded runs a pool call; a panic is returned instead of propagated so that it can be matched against the
@@ -141,6 +145,8 @@ func knownMismatch(ev types.Evidence, r refOut, accepted bool, err error) (strin
 		return kfForward, true
 	case accepted && r.v == vInvalid && r.unprovenCulprit:
 		return kfUnverified, true
+	case accepted && r.v == vInvalid && r.wrongIndex:
+		return kfIndex, true
 	}
 	return "", false
 }
@@ -256,6 +262,7 @@ type model struct {
 	gossip        map[string]bool
 	committedList []*mItem
 	blind         map[string]bool
+	crashes       int // crashes between SaveBlock and Pool.Update (block replayed by the handshake)
 	bigRestarts   int // restarts with more pending evidence than fits one block (Evidence.MaxBytes)
 	blindCommits  int
 	blindReoffers int
@@ -300,6 +307,9 @@ func (m *model) excluded(x *mItem, r refOut) bool {
 		return true
 	case r.v == vInvalid && r.unprovenCulprit && lib.IsKnown(kfUnverified):
 		lib.ExcludedByKnown(kfUnverified)
+		return true
+	case r.v == vInvalid && r.wrongIndex && lib.IsKnown(kfIndex):
+		lib.ExcludedByKnown(kfIndex)
 		return true
 	}
 	return false
@@ -583,7 +593,7 @@ func TestLifecycle(t *testing.T) {
 					}
 				}
 			}
-			if mode == "validated" {
+			if mode == "validated" || mode == "crash" {
 				var cand []*mItem
 				var keys []string
 				for h := range m.pending {
@@ -615,7 +625,7 @@ func TestLifecycle(t *testing.T) {
 				}
 			}
 			list = fitBytes(list, w.maxBytes)
-			if len(list) > 0 && mode == "validated" {
+			if len(list) > 0 && (mode == "validated" || mode == "crash") {
 				// consensus validates the block's evidence (BlockExecutor.ValidateBlock -> CheckEvidence) when it
 				// prevotes and once more when it finalizes the commit; ApplyBlock itself only calls Update.
 				for _, stage := range []string{"prevote", "finalize"} {
@@ -628,8 +638,22 @@ func TestLifecycle(t *testing.T) {
 				}
 			}
 			plan.Evidence = evList(list)
+			if mode == "crash" {
+				// the node dies after the block was saved and before ApplyBlock reached Pool.Update; when it comes back the
+				// handshake replays that block with a stub evidence pool (consensus.Handshaker.replayBlock) and only then
+				// is the real pool opened again on its database
+				w.c.SetEvidencePool(sm.EmptyEvidencePool{})
+			}
 			if err := w.advance(plan); err != nil {
 				m.fatalf(t, "ApplyBlock with evidence %s failed: %v", names(list), err)
+			}
+			if mode == "crash" {
+				m.pool = w.newPool(t, m.db)
+				w.c.SetEvidencePool(m.pool)
+				m.buffer = nil // in memory only, gone with the process
+				m.drift = 0
+				m.restarts++
+				m.crashes++
 			}
 			if plan.Params != nil {
 				m.log("   (evidence params now: MaxAgeNumBlocks=%d MaxAgeDuration=%s MaxBytes=%d)", w.maxBlocks, w.maxDur, w.maxBytes)
@@ -803,6 +827,13 @@ func TestLifecycle(t *testing.T) {
 			"advance":           func(t *rapid.T) { advance(t, "") },
 			"advance-evidence":  func(t *rapid.T) { advance(t, "validated") },
 			"advance-blocksync": func(t *rapid.T) { advance(t, "blocksync") },
+			"advance-crash": func(t *rapid.T) {
+				if lib.IsKnown(kfCrash) {
+					lib.ExcludedByKnown(kfCrash)
+					t.Skip("crash between SaveBlock and Pool.Update: listed known finding")
+				}
+				advance(t, "crash")
+			},
 			"pending": func(t *rapid.T) {
 				all, total := m.pool.PendingEvidence(-1)
 				max := int64(-1)
@@ -866,7 +897,7 @@ func TestLifecycle(t *testing.T) {
 		cls := []string{fmt.Sprintf("commits:%d", min(m.commits, 3)), fmt.Sprintf("reoffers-of-committed:%d", min(m.reoffers, 3)),
 			fmt.Sprintf("expiries:%d", min(m.expiries, 3)), fmt.Sprintf("restarts:%d", min(m.restarts, 2)),
 			fmt.Sprintf("reports-flushed:%d", min(m.reportsFlushed, 3)), fmt.Sprintf("lists-with-repeats:%d", min(m.dupLists, 2)),
-			fmt.Sprintf("evidence-param-changes:%d", min(w.paramChanges, 3)), fmt.Sprintf("restarts-with-more-pending-than-maxbytes:%d", min(m.bigRestarts, 2)), fmt.Sprintf("commits-never-pending:%d", min(m.blindCommits, 3)), fmt.Sprintf("reoffers-of-never-pending-committed:%d", min(m.blindReoffers, 3))}
+			fmt.Sprintf("evidence-param-changes:%d", min(w.paramChanges, 3)), fmt.Sprintf("crashes-before-update:%d", min(m.crashes, 2)), fmt.Sprintf("restarts-with-more-pending-than-maxbytes:%d", min(m.bigRestarts, 2)), fmt.Sprintf("commits-never-pending:%d", min(m.blindCommits, 3)), fmt.Sprintf("reoffers-of-never-pending-committed:%d", min(m.blindReoffers, 3))}
 		cls = append(cls, ks...)
 		lib.Case(name, lib.FP(strings.Join(m.ops, ";")), nontrivial, cls...)
 		if nontrivial && lib.WantSample(name) {
